@@ -408,7 +408,7 @@ func (c *c08) checkFS(cs *Case, record bool) *Case {
 	var calls []call
 	rootAbs := p.absRoot()
 	for i, e := range refDisk.Log {
-		if e.Op != "stat" && e.Op != "readfile" {
+		if e.Op != "stat" && !isReadOp(e.Op) {
 			continue
 		}
 		ap := filepath.Clean(e.Path)
@@ -449,12 +449,12 @@ func (c *c08) checkFS(cs *Case, record bool) *Case {
 		label = "errno-" + simrt.FaultNames[k] + "@" + target.op
 	case 2: // content fault at a read
 		for _, cl := range calls {
-			if cl.op == "readfile" && cl.idx >= target.idx {
+			if isReadOp(cl.op) && cl.idx >= target.idx {
 				target = cl
 				break
 			}
 		}
-		if target.op != "readfile" {
+		if !isReadOp(target.op) {
 			return nil
 		}
 		kinds := []int{simrt.FTorn, simrt.FZeroTail, simrt.FFlip, simrt.FSwap, simrt.FDup}
